@@ -239,6 +239,58 @@ def run(prog, ctx):
     res.entry_points = ["%s::%s" % specfmt.FAMILIES[f]["reader"] for f in sorted(specfmt.IMAGES)]
     # an updatable Hll4 image re-inserts its aux pairs one by one: the aux table's insert / find / grow probe geometry (C02.Q, Q2)
     C.import_rules(res, prog, ctx, "C13.Q", "C02", ("C02.Q", "C02.Q2"), "aux table rebuilt from an image", 2)
+    # ---------------- C13.T the aux area of an Hll4 array image: a compact image lists aux_count pairs back to back, an updatable
+    # one carries the whole aux table of 2^lg_arr ints (lg_arr in the preamble).  The trip count of the reader's aux loop is
+    # evaluated for both forms; its roles are taken from the expression itself (the u32 read = aux_count, the bool parameter = the
+    # compact flag, the u8 parameter = lg_arr).  A count that does not depend on the flag at all reads updatable images wrongly.
+    n_t = 0
+    f4 = C.fn_one(prog, "hll::array4::Array4", "deserialize")
+    if f4 is not None:
+        from .common import Sym, show
+        s4 = Sym(prog, f4)
+        for h, body in s4.loops():
+            if not any(b in body and "::read_u32" in (st.get("callee") or "") for b, st in f4.calls()):
+                continue
+            nxt = [(b, st) for b, st in f4.calls() if b in body and (st.get("callee") or "").endswith("::next")]
+            if len(nxt) != 1:
+                continue
+            trip = s4.at(nxt[0][0], "t").operand(nxt[0][1]["args"][0])
+            while trip[0] == "call" and trip[1].rsplit("::", 1)[-1] in ("into_iter", "by_ref"):
+                trip = trip[2][0]
+            if not (trip[0] == "agg" and "Range" in trip[1] and len(trip[2]) == 2):
+                continue
+            n_t += 1
+            lv = formula.top_leaves(trip[2][1])
+            reads = [k for k in lv if k.startswith("read_u32")]
+            bools = [k for k, x in lv.items() if x[0] == "param" and f4.local_ty(x[1]) == "bool"]
+            u8s = [k for k, x in lv.items() if x[0] == "param" and f4.local_ty(x[1]) == "u8"]
+            if len(reads) != 1:
+                res.tri(None, "C13.T", "C13.T|hll4-aux", "aux loop bound not recognised: %s" % show(trip)[:120], f4.id)
+                continue
+            if not bools:
+                res.tri(False, "C13.T", "C13.T|hll4-aux", "%s reads %s aux ints whatever the compact flag says: an updatable Hll4 image carries the whole aux table of "
+                        "2^lg_arr ints with empty cells, which is then decoded as aux_count back-to-back pairs" % (f4.id, show(trip[2][1])[:80]), f4.id)
+                continue
+            verdict, wit = None, ""
+            try:
+                verdict = True
+                for cnt, lg in ((2, 3), (5, 4), (1, 2)):
+                    for flag, want in ((1, cnt), (0, 1 << lg)):
+                        env = {"@prog": prog, reads[0]: cnt}
+                        for k in bools:
+                            env[k] = flag
+                        for k in u8s:
+                            env[k] = lg
+                        got = formula.evaluate(trip[2][1], env) - formula.evaluate(trip[2][0], env)
+                        if got != want and verdict:
+                            verdict, wit = False, "compact=%d aux_count=%d lg_arr=%d: reads %d ints, the layout has %d" % (flag, cnt, lg, got, want)
+            except (formula.Uneval, TypeError):
+                verdict = None
+            res.tri(verdict, "C13.T", "C13.T|hll4-aux", "%s: %s" % (f4.id, wit), f4.id)
+    res.rule("C13.T", n_t, 1, "aux area of Hll4 images: ints read vs the compact / updatable layout")
+    # sibling reader calls pass their same-typed flags in the declared order (C11.A): a foreign image sets flag combinations this
+    # library never writes, so crossed `compact` / `ooo` arguments only show on such images
+    C.import_rules(res, prog, ctx, "C13.A", "C11", ("C11.A",), "crossed same-type arguments on the reader paths", 50)
     res.explanation = ("reader I/O models extracted from MIR, simulated on every image variant of the published formats with branches evaluated on the "
                        "variant's preamble values")
     res.not_decided = "equality of decoded and encoded state; HLL4 updatable aux-table semantics"
